@@ -467,7 +467,7 @@ class MRunner(Runner):
                     args=(job_q, result_q, self.reporter.__class__))
                 process.start()
                 proc_list.append(process)
-        except (SystemExit, KeyboardInterrupt, Exception):
+        except BaseException:
             # do not leave already started processes waiting for a job
             if self.Child == Process:
                 for proc in proc_list:
@@ -533,7 +533,7 @@ class MRunner(Runner):
                 # on hold, no task is being executed
                 if proc_count and self.free_proc >= proc_count:
                     raise task_dispatcher.cyclic_hold_error()
-        except (SystemExit, KeyboardInterrupt, Exception):
+        except BaseException:
             if self.Child == Process:
                 for proc in proc_list:
                     proc.terminate()
@@ -602,7 +602,7 @@ class MRunner(Runner):
                 result['err'] = [action.err for action in task.actions]
 
                 result_q.put(result)
-        except (SystemExit, KeyboardInterrupt, Exception) as exception:
+        except BaseException as exception:
             # error, blow-up everything. send exception info to master process
             result_q.put({
                 'exit': exception.__class__,
